@@ -47,6 +47,14 @@ def build(case):
     elif case["hist"] == "extended":
         a.integrate(dtype(tf), callback=b); peek()
         a.integrate(dtype(tf + 0.75 * (tf - t0)), callback=b)       # the record extends beyond the configured (t0, tf)
+    elif case["hist"] in ("one-ev", "continued-ev", "terminal-ev"):
+        # runs that monitored events (their search keeps interpolants of the last steps even when dense output is off): lookups afterwards are by nearest sample
+        def ev(t, y, **kw):
+            return np.asarray(t - dtype(t0 + 0.4375 * (tf - t0)))
+        ev.is_terminal = case["hist"] == "terminal-ev"
+        if case["hist"] == "continued-ev":
+            a.integrate(dtype(t0 + 0.5 * (tf - t0)), events=[ev], callback=b); peek()
+        a.integrate(dtype(tf), events=[ev], callback=b)
     elif case["hist"] == "partial":
         a.integrate(dtype(t0 + 0.375 * (tf - t0)), callback=b)
     elif case["hist"] == "reset":
@@ -233,12 +241,12 @@ def run(ctx):
     for m, dt0 in (("EulerSolver", 0.25), ("RK4Solver", 0.25), ("RK45CKSolver", 0.25), ("DOPRI45", 0.5)) + ((("ABAs5o6HSolver", 0.25), ("ImplicitMidpoint", 0.25), ("RadauIIA5", 0.25)) if not ctx.quick else ()):
         for sp in spans:
             for dense in (False, True):
-                for hist in ("one", "continued", "extended", "partial", "none", "reset", "reset-partial", "failed"):
+                for hist in ("one", "continued", "extended", "partial", "none", "reset", "reset-partial", "failed", "one-ev", "continued-ev", "terminal-ev"):
                     for dn in (("float64",) if ctx.quick else ("float64", "float32", "longdouble")):
                         cases.append(dict(method=m, span=list(sp), dt0=dt0, dense=dense, hist=hist, dtype=dn))
                         if hist != "none":
                             cases.append(dict(method=m, span=list(sp), dt0=dt0, dense=dense, hist=hist, dtype=dn, against=True))
-                        if hist in ("continued", "extended", "reset", "reset-partial"):
+                        if hist in ("continued", "extended", "reset", "reset-partial", "continued-ev"):
                             cases.append(dict(method=m, span=list(sp), dt0=dt0, dense=dense, hist=hist, dtype=dn, peek=True))
                             if dense:
                                 cases.append(dict(method=m, span=list(sp), dt0=dt0, dense=dense, hist=hist, dtype=dn, against=True, peek=True))
